@@ -16,10 +16,91 @@ WEIGHTED = ['NOT', 'NOT'] + [t for t in SUPPORTED if t != 'NOT'] * 2
 UNSUPPORTED = ['IFF', 'LIFF', 'RNOT', 'ALWAYS_TRUE']
 
 
+MOTIFS = {
+    # name: (number of operands, builder(ops, prefix) -> list of gates, last one is the motif output)
+    'xor_of_ands': (3, lambda o, p: [[p + 'a', 'AND', [o[0], o[1]]], [p + 'b', 'AND', [o[0], o[2]]], [p + 'o', 'XOR', [p + 'a', p + 'b']]]),
+    'or_of_ands': (3, lambda o, p: [[p + 'a', 'AND', [o[0], o[1]]], [p + 'b', 'AND', [o[0], o[2]]], [p + 'o', 'OR', [p + 'a', p + 'b']]]),
+    'and_of_ors': (3, lambda o, p: [[p + 'a', 'OR', [o[0], o[1]]], [p + 'b', 'OR', [o[0], o[2]]], [p + 'o', 'AND', [p + 'a', p + 'b']]]),
+    'xor3_and': (4, lambda o, p: [[p + 'a', 'AND', [o[0], o[1]]], [p + 'u', 'XOR', [p + 'a', o[3]]], [p + 'b', 'AND', [o[0], o[2]]],
+                                  [p + 'o', 'XOR', [p + 'u', p + 'b']]]),
+    'xor_expanded': (2, lambda o, p: [[p + 'a', 'GT', [o[0], o[1]]], [p + 'b', 'LT', [o[0], o[1]]], [p + 'o', 'OR', [p + 'a', p + 'b']]]),
+    'nand_tree_xor': (2, lambda o, p: [[p + 'n', 'NAND', [o[0], o[1]]], [p + 'a', 'NAND', [o[0], p + 'n']], [p + 'b', 'NAND', [o[1], p + 'n']],
+                                       [p + 'o', 'NAND', [p + 'a', p + 'b']]]),
+    'plain': (2, lambda o, p: [[p + 'o', 'AND', [o[0], o[1]]]]),
+}
+
+
+@st.composite
+def motif_netlists(draw):
+    """Chains of locally redundant cones that share primary inputs (overlapping improvable cones)."""
+    n_in = draw(st.sampled_from([3, 4, 4, 5]))
+    ins = [f'i{k}' for k in range(n_in)]
+    gates = [[x, 'INPUT', []] for x in ins]
+    outs_of_motifs = []
+    seen_gates: dict = {}
+    prev_ops: list = []
+    names = list(MOTIFS) + ['xor3_and', 'xor3_and', 'xor_of_ands']
+    for k in range(draw(st.integers(2, 4))):
+        name = draw(st.sampled_from(names))
+        arity, builder = MOTIFS[name]
+        pool = ins + outs_of_motifs
+        overlap = bool(outs_of_motifs) and draw(st.integers(0, 2)) > 0
+        ops = []
+        for q in range(arity):
+            if overlap and q == arity - 1:
+                cand = outs_of_motifs[-1]  # the previous cone output becomes a leaf of this cone
+            elif overlap and prev_ops and draw(st.integers(0, 3)) > 0:
+                cand = prev_ops[draw(st.integers(0, len(prev_ops) - 1))]  # share primary inputs with the previous cone
+            else:
+                cand = pool[draw(st.integers(0, len(pool) - 1))]
+            tries = 0
+            while cand in ops and tries < len(pool):
+                cand = pool[(pool.index(cand) + 1) % len(pool)]
+                tries += 1
+            ops.append(cand)
+        new = builder(ops, f'm{k}_')
+        # structural hashing: an identical gate that exists already is re-used, so that sharing inputs between
+        # motifs does not create (functionally equivalent) duplicate gates
+        ren = {}
+        for lab, ty, gops in new:
+            gops = [ren.get(x, x) for x in gops]
+            key = (ty, tuple(sorted(gops)) if ty in refsem.SYMMETRIC else tuple(gops))
+            if key in seen_gates:
+                ren[lab] = seen_gates[key]
+                continue
+            seen_gates[key] = lab
+            gates.append([lab, ty, gops])
+        outs_of_motifs.append(ren.get(new[-1][0], new[-1][0]))
+        prev_ops = [o for o in ops if o in ins]
+    outputs = [outs_of_motifs[-1]]
+    if draw(st.booleans()):
+        outputs.append(outs_of_motifs[draw(st.integers(0, len(outs_of_motifs) - 1))])
+    nl = {'inputs': ins, 'gates': gates, 'outputs': outputs, 'style': 'plain'}
+    reach = refsem.reachable(nl)
+    nl['gates'] = [g for g in gates if g[1] == 'INPUT' or g[0] in reach]
+    return nl
+
+
 @st.composite
 def cases(draw, tier):
     big = tier == 'thorough'
-    shape = draw(st.sampled_from(['live', 'live', 'live', 'dead', 'unsupported'] if True else []))
+    shape = draw(st.sampled_from(['live', 'live', 'dead', 'unsupported', 'motif', 'motif', 'motif', 'motif']))
+    if shape == 'motif':
+        nl = draw(motif_netlists())
+        return {
+            'nl': nl, 'shape': shape,
+            'basis': draw(st.sampled_from(['XAIG', 'FULL', 'XAIG', 'AIG', 'enum:XAIG'])),
+            'max_subcircuit_size': draw(st.integers(4, 7)),
+            'cut_size': draw(st.sampled_from([3, 4, 4])),
+            'cut_limit': draw(st.sampled_from([8, 25, 25])),
+            'fanout_size': 10000,
+            'time_limit': draw(st.sampled_from([0, 0, 0, 15])),
+            'enable_validation': draw(st.booleans()),
+            'policy': {'mode': draw(st.sampled_from(['reference', 'generated'])), 'seed': draw(st.integers(0, 10 ** 6)),
+                       'priority': draw(st.sampled_from(['random', 'large_first', 'small_first'])),
+                       'list_order': draw(st.sampled_from(['kept', 'shuffled']))},
+            'uuid_seed': draw(st.integers(0, 2 ** 20)), 'inject': [3, 0],
+        }
     types = WEIGHTED if shape != 'unsupported' else WEIGHTED + UNSUPPORTED
     nl = draw(gen.netlists(min_inputs=draw(st.sampled_from([2, 3, 3, 4])), max_inputs=5, min_gates=2,
                            max_gates=draw(st.sampled_from([5, 7, 9, 12] if not big else [6, 9, 12, 14])), types=types,
@@ -73,6 +154,86 @@ def inflate(nl, picks):
         new = [list(x) for x in exp[:-1]] + [[lab, exp[-1][0], list(exp[-1][1])]]
         gates[i:i + 1] = new
     return dict(nl, gates=gates)
+
+
+def motif_pair_netlist(m1, m2, ops2):
+    """Two chained motifs over inputs i0..i4: the second takes the first one's output as its last operand."""
+    ins = [f'i{k}' for k in range(5)]
+    a1, b1 = MOTIFS[m1]
+    a2, b2 = MOTIFS[m2]
+    gates = [[x, 'INPUT', []] for x in ins]
+    seen = {}
+    outs = []
+    for k, (builder, ops) in enumerate(((b1, ins[:a1]), (b2, None))):
+        if ops is None:
+            ops = [ins[q] for q in ops2] + [outs[0]]
+        ren = {}
+        new = builder(ops, f'm{k}_')
+        for lab, ty, gops in new:
+            gops = [ren.get(x, x) for x in gops]
+            key = (ty, tuple(sorted(gops)) if ty in refsem.SYMMETRIC else tuple(gops))
+            if key in seen:
+                ren[lab] = seen[key]
+                continue
+            seen[key] = lab
+            gates.append([lab, ty, gops])
+        outs.append(ren.get(new[-1][0], new[-1][0]))
+    nl = {'inputs': ins, 'gates': gates, 'outputs': [outs[-1]], 'style': 'plain'}
+    reach = refsem.reachable(nl)
+    nl['gates'] = [g for g in gates if g[1] == 'INPUT' or g[0] in reach]
+    nl['inputs'] = [i for i in ins]
+    return nl
+
+
+def motif_pair_space():
+    import itertools
+
+    space = []
+    names = [n for n in MOTIFS if n != 'plain']
+    for m1 in names:
+        for m2 in names:
+            a2 = MOTIFS[m2][0]
+            for ops2 in itertools.permutations(range(5), a2 - 1):
+                space.append((m1, m2, list(ops2)))
+    return space
+
+
+def motif_pairs_sweep(tier, shard, nshards, seed):
+    import random
+
+    space = motif_pair_space()
+    if tier == 'thorough':
+        # every pair with three different parameter settings
+        space = space + space + space
+    done = nt = 0
+    sample = None
+    for idx, (m1, m2, ops2) in enumerate(space):
+        if idx % nshards != shard:
+            continue
+        case = motif_pair_case(m1, m2, ops2, idx + seed)
+        try:
+            info = check_minimize(case)
+        except Violation as v:
+            v.case = case
+            raise
+        done += 1
+        if info.get('nt'):
+            nt += 1
+        sample = {'motifs': [m1, m2], 'second_operands': ops2, 'bench': build.bench_text(case['nl'])}
+    return {'evaluations': done, 'distinct_nontrivial': nt, 'exhaustive': True,
+            'samples': [sample] if sample else []}
+
+
+def motif_pair_case(m1, m2, ops2, k):
+    return {'nl': motif_pair_netlist(m1, m2, ops2), 'shape': 'motif', 'basis': ['XAIG', 'FULL', 'AIG'][k % 3],
+            'max_subcircuit_size': 5 + k % 3, 'cut_size': 4, 'cut_limit': 25, 'fanout_size': 10000, 'time_limit': 0,
+            'enable_validation': bool(k % 2),
+            'policy': {'mode': 'reference' if k % 2 else 'generated', 'seed': k, 'priority': 'random', 'list_order': 'kept'},
+            'uuid_seed': k, 'inject': [3, 0]}
+
+
+def replay_motif_pair(case):
+    check_minimize(case)
 
 
 def circuit_classes(nl):
@@ -202,8 +363,10 @@ SPEC = {
              'functionally equivalent gates. Case classes eq / comp / clean, const, dead computed from reference tables. '
              'Non-trivial: the result differs structurally from the argument.'),
     'assumptions': ['cut enumerator and SAT solver are stand-ins inside the quantified domain (any admissible cut family, any sound and complete solver)'],
-    'subs': [Sub('minimize', cases, check_minimize, {'quick': 1600, 'thorough': 60000}, shrink_quick=False)],
-    'required_classes': {'minimize': ['clean', 'comp', 'eq', 'dead', 'changed', 'smaller', 'clean&changed', 'policy:generated',
+    'sharded': {'motif_pairs': motif_pairs_sweep},
+    'replay': {'motif_pairs': replay_motif_pair},
+    'subs': [Sub('minimize', cases, check_minimize, {'quick': 3200, 'thorough': 60000}, shrink_quick=False)],
+    'required_classes': {'minimize': ['clean', 'comp', 'eq', 'dead', 'changed', 'smaller', 'clean&changed', 'shape:motif', 'policy:generated',
                                       'policy:reference', 'forked_solver', 'timeout_injection', 'unsupported_rejected',
                                       'basis:AIG', 'basis:XAIG', 'basis:FULL']},
 }
